@@ -223,6 +223,13 @@ theorem addOK_of_checks {s : Snap} (hok : Snap.ufOK s = true)
   have := List.any_eq_false.mp hids c hc
   simpa using this
 
+/-- the invocation an insertion returns is canonical (`find` leaves it as it is) and the leader entry of the new class is the
+identity on its slots (the form of entry the C13 theorems about later merges and shrinks of that class start from) -/
+theorem add_returns_canonical_handle {s s' : Snap} {n syn : Node} {f2o : SlotMap} {data : String} {a : AppId}
+    (h : Snap.addNew s n f2o syn data = some (s', a)) :
+    s'.uf[a.id]? = some { id := a.id, m := SlotMap.identity (SlotMap.keys f2o) } ∧ Snap.find s' a = some a :=
+  Snap.add_returns_canonical h
+
 /-- non-vacuity: on the empty e-graph the node `f2($8, $12)` (variant 7, two slot fields) is a miss; with the fresh slots
 `101, 105` handed in, the model allocates class 0 -/
 example : ((Snap.addNew { uf := [], classes := [] } { v := 7, fields := [.slot 8, .slot 12] } [(101, 8), (105, 12)]
